@@ -86,6 +86,8 @@ struct TlsState {
     writes: usize,
     /// the client->server stream ends (read returns 0) after this many bytes
     eof_at: Option<usize>,
+    /// ends of the client messages inside `script` when each goes into its own TLS record
+    part_ends: Vec<usize>,
 }
 
 #[derive(Clone)]
@@ -147,7 +149,16 @@ impl TlsState {
         // 3. the application data: buffered by rustls until the handshake allows sending it
         if !self.script_written {
             let s = std::mem::take(&mut self.script);
-            let _ = self.client.writer().write_all(&s);
+            if self.part_ends.is_empty() {
+                let _ = self.client.writer().write_all(&s);
+            } else {
+                // one write per client message: each becomes its own TLS record(s)
+                let mut from = 0;
+                for e in self.part_ends.clone() {
+                    let _ = self.client.writer().write_all(&s[from..e]);
+                    from = e;
+                }
+            }
             self.script_written = true;
         }
         // 4. collect what the client wants to send
@@ -298,6 +309,7 @@ fn run_tls_full(server_tls: Option<Arc<rustls::ServerConfig>>, client_cert: bool
         write_fault: WRITE_FAULT.with(|w| w.get()),
         writes: 0,
         eof_at: EOF_AT.with(|w| w.get()),
+        part_ends: if PER_MESSAGE.with(|w| w.get()) { script_with(hs_seq).1.stream().ends } else { Vec::new() },
     };
     let sim = TlsSim(Rc::new(RefCell::new(st)));
     let mut shim = Shim::new(None, tls_behave());
@@ -720,6 +732,7 @@ thread_local! {
     static WRITE_FAULT: std::cell::Cell<Option<(usize, io::ErrorKind)>> = std::cell::Cell::new(None);
     static AUTH_REJECT: std::cell::Cell<Option<u64>> = std::cell::Cell::new(None);
     static EOF_AT: std::cell::Cell<Option<usize>> = std::cell::Cell::new(None);
+    static PER_MESSAGE: std::cell::Cell<bool> = std::cell::Cell::new(false);
 }
 
 /// the client's stream ends (no close_notify) after k bytes of a TLS session: inside the TLS
@@ -729,10 +742,15 @@ struct TlsEof {
     positions: Vec<usize>,
     boundaries: Vec<usize>,
     tls12: bool,
+    /// the client sends every message in a TLS record of its own (record boundaries then
+    /// coincide with command boundaries, so the server's packet buffer is empty at each)
+    per_message: bool,
 }
 impl TlsEof {
-    fn new(quick: bool, tls12: bool) -> Self {
+    fn new(quick: bool, tls12: bool, per_message: bool) -> Self {
+        PER_MESSAGE.with(|w| w.set(per_message));
         let o = run_tls_with(Some(pki().server_plain.clone()), false, vec![], usize::MAX, 0, tls12);
+        PER_MESSAGE.with(|w| w.set(false));
         let stream = o.st.to_server;
         let mut boundaries = vec![];
         let mut off = 36;
@@ -742,12 +760,12 @@ impl TlsEof {
         }
         boundaries.push(stream.len());
         let positions = split_positions(&stream, quick).into_iter().filter(|p| *p < stream.len()).collect();
-        TlsEof { positions, boundaries, tls12 }
+        TlsEof { positions, boundaries, tls12, per_message }
     }
 }
 impl Family for TlsEof {
     fn name(&self) -> String {
-        format!("tls-stream-ends-early-{}", if self.tls12 { "tls12" } else { "tls13" })
+        format!("tls-stream-ends-early-{}{}", if self.tls12 { "tls12" } else { "tls13" }, if self.per_message { "-one-record-per-message" } else { "" })
     }
     fn len(&self) -> u64 {
         self.positions.len() as u64
@@ -757,7 +775,9 @@ impl Family for TlsEof {
         st.nontrivial += 1;
         st.bump("tls_eof_points");
         EOF_AT.with(|w| w.set(Some(p)));
+        PER_MESSAGE.with(|w| w.set(self.per_message));
         let o = run_tls_with(Some(pki().server_plain.clone()), false, vec![], usize::MAX, 0, self.tls12);
+        PER_MESSAGE.with(|w| w.set(false));
         EOF_AT.with(|w| w.set(None));
         st.transitions += o.st.reads as u64;
         let at_boundary = self.boundaries.contains(&p);
@@ -855,8 +875,10 @@ pub fn build(quick: bool) -> Check {
     }
     families.push(Box::new(HelloSizes::new(quick)));
     families.push(Box::new(SslRequests));
-    families.push(Box::new(TlsEof::new(quick, false)));
-    families.push(Box::new(TlsEof::new(quick, true)));
+    families.push(Box::new(TlsEof::new(quick, false, false)));
+    families.push(Box::new(TlsEof::new(quick, true, false)));
+    families.push(Box::new(TlsEof::new(quick, false, true)));
+    families.push(Box::new(TlsEof::new(quick, true, true)));
     families.push(Box::new(TlsWriteFaults::new(false)));
     families.push(Box::new(TlsWriteFaults::new(true)));
     for cc in [false, true] {
@@ -868,7 +890,7 @@ pub fn build(quick: bool) -> Check {
     Check {
         id: "C18",
         level: "model_checking",
-        rule: "a live rustls client inside the transport: SSLRequest (plaintext) immediately followed by the ClientHello, then, once the server's flight arrived, Finished (+ client certificate) coalesced with the encrypted HandshakeResponse41 and six pipelined commands, among them a 20000-byte query (several inbound TLS records) answered by a resultset with a 40000-byte cell and 250 rows (115 KB: several outbound records, more than rustls buffers unsent). Schedules: every single cut position of the whole client->server stream (quick: every position of the first 1600 bytes and within 6 bytes of each TLS record header, every 13th elsewhere), every pair of cut positions within SSLRequest+ClientHello (thorough: every pair within the first 1100 bytes), uniform read sizes 1..64; with and without a client certificate; the single cuts again with a TLS 1.2 client; ClientHello sizes (padded with ALPN names) swept across 3.6-4.2 KB, 7.8-8.3 KB, 15.9-16.5 KB and up to 60 KB, coalesced with the SSL request or not; SSL requests in the pre-4.1 layout (naming another user in the clear) and connection-phase sequence ids other than 1, 2; the client's stream ending (without close_notify) at every such position of a TLS 1.3 and a TLS 1.2 session - Ok is only acceptable exactly between two TLS records; each transport write of a TLS session failing once with Interrupted / WouldBlock, with an accepting and a rejecting shim; plus a TLS-requesting client against a shim without TLS configuration under every cut of its first flight. Oracle: user name and certificate chain at after_authentication, callback log = script, every server byte after the greeting lies in a well-formed TLS record the client accepts, decrypted replies decode strictly with the right sequence ids, run_on returns Ok; no-config case: Err and no callback.".into(),
+        rule: "a live rustls client inside the transport: SSLRequest (plaintext) immediately followed by the ClientHello, then, once the server's flight arrived, Finished (+ client certificate) coalesced with the encrypted HandshakeResponse41 and six pipelined commands, among them a 20000-byte query (several inbound TLS records) answered by a resultset with a 40000-byte cell and 250 rows (115 KB: several outbound records, more than rustls buffers unsent). Schedules: every single cut position of the whole client->server stream (quick: every position of the first 1600 bytes and within 6 bytes of each TLS record header, every 13th elsewhere), every pair of cut positions within SSLRequest+ClientHello (thorough: every pair within the first 1100 bytes), uniform read sizes 1..64; with and without a client certificate; the single cuts again with a TLS 1.2 client; ClientHello sizes (padded with ALPN names) swept across 3.6-4.2 KB, 7.8-8.3 KB, 15.9-16.5 KB and up to 60 KB, coalesced with the SSL request or not; SSL requests in the pre-4.1 layout (naming another user in the clear) and connection-phase sequence ids other than 1, 2; the client's stream ending (without close_notify) at every such position of a TLS 1.3 and a TLS 1.2 session - with all messages in one burst of records and with one record per message; Ok is only acceptable exactly between two TLS records; each transport write of a TLS session failing once with Interrupted / WouldBlock, with an accepting and a rejecting shim; plus a TLS-requesting client against a shim without TLS configuration under every cut of its first flight. Oracle: user name and certificate chain at after_authentication, callback log = script, every server byte after the greeting lies in a well-formed TLS record the client accepts, decrypted replies decode strictly with the right sequence ids, run_on returns Ok; no-config case: Err and no callback.".into(),
         assumptions: vec![
             "ring's randomness is not owned: handshake bytes differ between runs and with a client certificate the stream length varies by a byte or two; cut positions are taken from the stream actually produced, the verdict does not depend on the random values".into(),
             "flush behaviour is C12's subject; here written bytes are visible to the client at once".into(),
